@@ -1189,6 +1189,9 @@ def run_find_link(inp, store, log):
         t = image.frame_no
         coords = np.asarray(coords)
         log["detected"][t] = [tuple(int(c) for c in p) for p in coords]
+        if kw.get("image_proc") is not None:
+            log.setdefault("proc", {})[t] = np.array(kw["image_proc"], dtype=np.float64)
+            log.setdefault("raw", {})[t] = np.array(image, dtype=np.float64)
         keep = list(range(len(coords)))
         if t > 0 and len(coords):
             r = _random.Random(wh["seed"] * 1000 + t)
@@ -1515,6 +1518,18 @@ def run_movie_case(ctx, inp):
         if failed is None and len(set(l[0] for l in lab)) != nb:
             failed = ("labels shared", [l[0] for l in lab])
         if failed is not None:
+            # one known cause (recorded finding): with preprocess=True the first pass applies minmass to
+            # the mass on the RAW frame, the relocation to the mass on the band-passed frame; a blob
+            # whose minmass lies between the two is detected but can never be re-found
+            cause = None
+            if inp.get("preprocess") and isinstance(failed[0], int) and log.get("proc"):
+                rad_ = [int(r) for r in radius_of(inp)]
+                for t in range(1, nfr):
+                    if failed[1][t] is None and t in log["proc"]:
+                        p_ = (truth[t][failed[0]][0], truth[t][failed[0]][1])
+                        mr, mp = disc_mass(log["raw"][t], p_, rad_), disc_mass(log["proc"][t], p_, rad_)
+                        if mr is not None and mp is not None and mp < float(inp["minmass"]) <= mr:
+                            cause = "minmass-between-raw-and-bandpassed-mass"
             res.violation("property-violation",
                           "well-separated blobs moving less than search_range: trajectory of blob "
                           "%s is not recovered completely (labels per frame %s; withheld pattern %s)"
@@ -1523,7 +1538,7 @@ def run_movie_case(ctx, inp):
                                     handed={str(t): sorted(v) for t, v in handed.items()},
                                     truth=truth),
                           signature=dict(what="recovery-failed", sr_iso=bool(inp["iso"]),
-                                         withheld=withheld > 0))
+                                         withheld=withheld > 0, cause=cause))
             return res
         # first pass / relocation consistency: the complete trajectories are those of the complete
         # detections, so a withheld detection that the first pass would have kept (mass of the
